@@ -366,3 +366,39 @@ def x86_kernels():
     """(kernel name, module source, instruction names): every top-level / nested loop of the kernel is
     tried against every listed instruction"""
     return [(k, HEADER + _K[k], X86_INSTRS[k]) for k in sorted(_K)]
+
+
+# ---------------------------------------------------------------- inline probes (semantics of the real inline)
+INLINE_PROBES = [
+    case("config-actual", "inline-probe", """
+@config
+class CfgP:
+    a: index
+
+@proc
+def callee(k: index, x: [R][4]):
+    assert k >= 0
+    assert k < 2
+    CfgP.a = k + 1
+    x[k] = 1.0
+
+@proc
+def target(x: R[4]):
+    assert CfgP.a >= 0
+    assert CfgP.a < 2
+    callee(CfgP.a, x[0:4])
+""", "callee", "callee(_)"),
+    case("same-callee-twice", "inline-probe", """
+@proc
+def callee(n: size, dst: [R][n], src: [R][n]):
+    for i in seq(0, n):
+        t: R
+        t = src[i]
+        dst[i] += t
+
+@proc
+def target(x: R[8], y: R[8]):
+    callee(4, x[0:4], y[4:8])
+    callee(4, y[0:4], x[4:8])
+""", "callee", "callee(_)"),
+]
